@@ -16,7 +16,10 @@
       link target is stored the way the view spells it, see `normLink`); a link
       is never followed: a member whose directory path holds a symbolic link, a
       regular file over a link or special file, and anything over an existing
-      link make `extract` answer `none`, and so do hard links.
+      link make `extract` answer `none`;
+    - a hard link is created when its name is new and its target (relative to
+      the root, see `normLink`) is at that moment the name of a regular file;
+      it reads what that name holds at the end.
 
   Core Lean only.
 -/
@@ -28,6 +31,7 @@ inductive XNode where
   | dir
   | file (data : Bytes)
   | sym (target : Bytes)
+  | hard (target : Bytes)
   | special
 deriving DecidableEq, Repr
 
@@ -79,7 +83,16 @@ def xInsert (t : XTree) (m : Member) : Option XTree :=
     match alGet t n with
     | some _ => none
     | none => (xMkdirs t (prefixesOf n).dropLast).map fun t1 => alSet t1 n .special
-  | .link => none
+  | .link =>
+    match alGet t n with
+    | some _ => none
+    | none =>
+      match xMkdirs t (prefixesOf n).dropLast with
+      | none => none
+      | some t1 =>
+        match alGet t1 (normLink .link n m.link) with
+        | some (.file _) => some (alSet t1 n (.hard (normLink .link n m.link)))
+        | _ => none
 
 def xRoot : XTree := [(dotP, .dir)]
 
